@@ -212,9 +212,99 @@ fn stream_adler(input: &[u8], level: i32, chunk: usize, room: usize, wbits: i32,
     }
 }
 
+/// Flavour `bb` (feature block-boundary): the decoder's running checksum at every call boundary
+/// when the caller asks to stop at block boundaries (a fourth non-error status exists there).
+#[cfg(feature = "bb")]
+fn run_bb(rep: &Report, th: bool) -> i32 {
+    use miniz_oxide::inflate::core::{decompress, DecompressorOxide};
+    use miniz_oxide::inflate::TINFLStatus;
+    let mut ss = vec![];
+    ss.extend(crate::streams::block_sequences(Some((7, 2)), if th { 4 } else { 3 }, &[0, 3, 5], &crate::streams::BLOCK_KINDS[..if th { 6 } else { 5 }]));
+    ss.extend(crate::streams::stored_edges(Some((7, 2))).into_iter().rev().take(1));
+    let res = par_for(ss.len(), || (0u64, 0u64), |i, acc| {
+        watchdog::tick(i as u64, 7);
+        let s = &ss[i];
+        let n = s.plain.len();
+        for chunk in [usize::MAX, 1, 5] {
+            if chunk == 1 && s.bytes.len() > 5000 {
+                continue;
+            }
+            let r = guarded(|| {
+                let mut d = Box::new(DecompressorOxide::new());
+                let mut out = vec![0u8; n + 8];
+                let (mut ip, mut op) = (0usize, 0usize);
+                let mut calls = 0u64;
+                let mut stops = 0u64;
+                loop {
+                    let end = ip.saturating_add(chunk).min(s.bytes.len());
+                    let more = if end < s.bytes.len() { F_MORE } else { 0 };
+                    let (st, c, w) = decompress(&mut d, &s.bytes[ip..end], &mut out, op, F_ZLIB | F_FLAT | F_BB | more);
+                    ip += c;
+                    op += w;
+                    calls += 1;
+                    if (st as i32) < 0 {
+                        return Err(format!("decode with stop-on-block-boundary returned {}", status_name(st)));
+                    }
+                    if ip >= 2 {
+                        let want = adler32_def(1, &out[..op]);
+                        if d.adler32() != Some(want) {
+                            return Err(format!("DecompressorOxide::adler32() = {:?} after {} output bytes (call {}, status {}), Adler-32 of those bytes is {:#x}", d.adler32(), op, calls, status_name(st), want));
+                        }
+                    }
+                    if st == TINFLStatus::BlockBoundary {
+                        stops += 1;
+                    }
+                    if st == TINFLStatus::Done {
+                        break;
+                    }
+                    if calls > 2_000_000 {
+                        return Err("no end".into());
+                    }
+                }
+                if out[..op] != s.plain[..] {
+                    return Err("wrong output".into());
+                }
+                Ok((calls, stops))
+            });
+            match r {
+                Ok(Ok((c, st))) => {
+                    acc.0 += c;
+                    acc.1 += st;
+                }
+                Ok(Err(e)) => rep.violation("C16/decoder-running-adler/block-boundary", format!("{} [{}] chunk {}", e, s.desc, chunk as isize), json!({"kind": "decoder-bb", "desc": s.desc, "chunk": chunk.min(1 << 40)})),
+                Err(p) => rep.violation("C16/panic", format!("panic {}", p), json!({"kind": "decoder-bb", "desc": s.desc})),
+            }
+        }
+    });
+    let calls: u64 = res.iter().map(|r| r.0).sum();
+    let stops: u64 = res.iter().map(|r| r.1).sum();
+    rep.set("evaluations", json!(calls));
+    rep.set("distinct_nontrivial", json!(stops));
+    rep.set("flavour", json!("block-boundary"));
+    rep.set("exhaustive", json!(true));
+    rep.set("rule", json!("every block-kind sequence up to 3/4 blocks x 3 alignments as a zlib stream, decoded with TINFL_FLAG_STOP_ON_BLOCK_BOUNDARY in one call, 5-byte and 1-byte chunks; after every call adler32() must equal the Adler-32 (by definition) of the output so far; non-trivial = calls that returned BlockBoundary"));
+    rep.sample(json!({"stream": ss[ss.len() / 2].desc, "chunk": 1}));
+    if stops < 100 {
+        println!("MACHINERY vacuous: block-boundary stops={}", stops);
+        rep.finish();
+        return 2;
+    }
+    rep.finish()
+}
+
 pub fn run(tier: &str) -> i32 {
     capi::install_fault_handler("C16");
     let rep = Report::new("C16", tier, if cfg!(feature = "simd") { "exploration" } else { "exploration" });
+    #[cfg(feature = "bb")]
+    {
+        let th = rep.thorough();
+        return run_bb(&rep, th);
+    }
+    #[allow(unreachable_code)]
+    run_main(rep)
+}
+
+fn run_main(rep: Report) -> i32 {
     let th = rep.thorough();
     let simd = cfg!(feature = "simd");
     // ---- definitions and composition ---------------------------------------------------------------
@@ -392,6 +482,7 @@ pub fn replay(v: &Value) -> Option<String> {
                 None
             }
         }
+        "decoder-bb" => Some("this case needs the block-boundary flavour of the harness: ./check C16 quick re-runs it (same site key, deterministic)".into()),
         "decoder" => {
             let s = unhex(v["stream_hex"].as_str()?);
             let plain = crate::refmodel::ref_inflate(&s, &crate::refmodel::Opts::zlib()).out;
